@@ -3,7 +3,7 @@ import json, os, subprocess
 import vlib
 
 
-def run_cases(ctx, module, cfg, kind, name, flt=None):
+def run_cases(ctx, module, cfg, kind, name, flt=None, env=None):
     res = ctx.run_tlc(module, cfg, workers=1, timeout=1200, heap="8g")
     ctx.tlc_must_pass(res, cfg)
     cases = res["edges"]
@@ -16,7 +16,7 @@ def run_cases(ctx, module, cfg, kind, name, flt=None):
     cmd = [exe, "-kind", kind, "-cases", inp, "-out", outp, "-seed", str(ctx.seed), "-scratch", os.path.join(ctx.scratch, "cases-" + name)]
     if kind == "record":
         cmd += ["-agent", ctx.build_agent()]
-    r = subprocess.run(cmd, stdout=subprocess.PIPE, stderr=subprocess.STDOUT, text=True)
+    r = subprocess.run(cmd, stdout=subprocess.PIPE, stderr=subprocess.STDOUT, text=True, env=dict(os.environ, **(env or {})))
     if r.returncode != 0 or not os.path.exists(outp):
         ctx.fatal("casereplay failed: " + r.stdout[-2000:])
     out = json.load(open(outp))
